@@ -101,11 +101,12 @@ def run(ctx):
             bad['mapping index outside the variables'] = True
         # ---- dispatch rows of ordinary assets = those of the unsplit problem
         plain = [a['name'] for a in sp['assets'] if a['kind'] not in SPECIAL]
-        rows_of = lambda mp: sorted((r['asset'], str(r['node']), r['time_step'], round(r['disp_factor'] if r['disp_factor'] is not None else 1.0, 9))
-                                    for r in mp if r['type'] == 'd' and r['asset'] in plain)
+        # (which (asset, node, step) carry dispatch; the number of variables per step may differ: a contract whose spread is zero
+        #  inside an interval needs one variable there and two in the unsplit problem)
+        rows_of = lambda mp: sorted(set((r['asset'], str(r['node']), r['time_step']) for r in mp if r['type'] == 'd' and r['asset'] in plain))
         if rows_of(s['mapping']) != rows_of(o['problem']['mapping']):
             a_, b_ = rows_of(s['mapping']), rows_of(o['problem']['mapping'])
-            bad['dispatch rows differ from the unsplit problem'] = {'only split': [r for r in a_ if r not in b_][:4], 'only unsplit': [r for r in b_ if r not in a_][:4]}
+            bad['(asset, node, step) with dispatch differ from the unsplit problem'] = {'only split': [r for r in a_ if r not in b_][:4], 'only unsplit': [r for r in b_ if r not in a_][:4]}
         # ---- value = sum of interval optima
         if s.get('solve') == 'optimal':
             iv = s.get('interval_values') or []
